@@ -60,6 +60,14 @@ def run(ctx: Ctx):
               ' configuration such as TreeAggregateFn.disable_slicing survives the round trip',
               c17.r5, min_instances=1)
   from mlmverif.props import c18
+  ctx.include('R-C02-14', '"the aggregate result a pipeline reports ... equals applying the aggregate function'
+              ' directly": get_result rebuilds the reported result leaf by leaf through the tree setter, so a'
+              ' result keyed by plain ints (per-class counts {0: .., 2: ..}) must come back as that mapping —'
+              ' a fresh branch becomes a list only for an Index key (R-C18-8)', c18.r8, min_instances=1)
+  ctx.include('R-C02-15', '"for every slice key it reports exactly the aggregate over the rows belonging to that'
+              ' slice ... no slice key is dropped": a pipeline assembled with chain() from same-named parts keeps'
+              ' the slicers of BOTH parts, as it keeps their fns and aggregates (R-C03-3 fusing keeps the'
+              ' operators)', c03.r3, min_instances=3)
   ctx.include('R-C02-11', '"applying the aggregate function directly to the selected input'
               ' columns": a column literally named like a reserved key (\'SELF\') selects'
               ' that column, not the whole batch — only the reserved OBJECT does (R-C18-4'
